@@ -9,11 +9,11 @@ namespace Regress.C08Frag
 open Regress Regress.IR Regress.Parse Regress.ESG
 
 /-- What the crate's class atom must be, given the grammar's: a code point with the same value, or a
-class escape. -/
+class escape or property escape (anything but a code point). -/
 def AtomRel (a : Option Nat) (a' : ClassAtom) : Prop :=
   match a with
   | some v => a' = .codePoint v
-  | none => ∃ ct pos, a' = .charClass ct pos
+  | none => ∀ v, a' ≠ .codePoint v
 
 theorem classAtom_plain (c : Cfg) {x : Nat} (r : List Nat) (hx : x ≠ 0x5C) :
     classAtom c (x :: r) = .ok (some x, r) := by
@@ -32,7 +32,8 @@ theorem bracketClassAtom_plain (fl : Flags) (hn : Bool) {x : Nat} (r : List Nat)
 /-- One class atom (the input does not start with `]`, a leading escape is not `\p` / `\P`). -/
 theorem classAtom_sim (c : Cfg) (hcu : c.u = true) (fl : Flags) (hu : fl.unicode = true) (hn : Bool)
     {x : Nat} {r : List Nat} (hx : x ≠ 0x5D) (hch : AllChar (x :: r))
-    (hp : ∀ y r', x = 0x5C → r = y :: r' → y ≠ 0x70 ∧ y ≠ 0x50) :
+    (hp : ∀ y r', x = 0x5C → r = y :: r' → (y = 0x70 ∨ y = 0x50) →
+      c.t = tabs ∧ c.v = false ∧ fl.unicodeSets = false) :
     match classAtom c (x :: r) with
     | .ok (a, r') => ∃ a', bracketClassAtom fl hn (x :: r) = .ok (some a', r') ∧ AtomRel a a'
     | .bad => IsSyn (bracketClassAtom fl hn (x :: r))
@@ -44,7 +45,50 @@ theorem classAtom_sim (c : Cfg) (hcu : c.u = true) (fl : Flags) (hu : fl.unicode
       rw [this]
       unfold bracketClassAtom
       exact isSyn_synErr _
-    · obtain ⟨hp1, hp2⟩ := hp y r' rfl rfl
+    · by_cases hpP : y = 0x70 ∨ y = 0x50
+      · -- a property escape
+        obtain ⟨hct, hcv, hnv⟩ := hp y r' rfl rfl hpP
+        have e1 : classAtom c (0x5C :: y :: r') =
+            match propEscape c (y == 0x50) r' with
+            | .ok (r'', _) => .ok (none, r'')
+            | .bad => .bad
+            | .fuel => .fuel := by
+          unfold classAtom
+          rcases hpP with rfl | rfl <;> simp [hcu, ESG.isClassEscLetter] <;> rfl
+        have e2 : bracketClassAtom fl hn (0x5C :: y :: r') =
+            match propertyEscape fl.unicodeSets r' with
+            | .error e => .error e
+            | .ok (.charClass s, rest2) => .ok (some (.range s (y == 0x50)), rest2)
+            | .ok (.stringSet _, _) => synErr "Invalid property escape" := by
+          unfold bracketClassAtom
+          rcases hpP with rfl | rfl <;> simp [hu] <;> rfl
+        rw [e1, e2, hnv]
+        have hs := prop_sim c hct (y == 0x50) r'
+        rw [hcv] at hs
+        cases hpe : propEscape c (y == 0x50) r' with
+        | fuel => rw [hpe] at hs; exact hs
+        | bad =>
+          rw [hpe] at hs
+          simp only
+          rcases hs with ⟨msg, hm⟩ | ⟨_, hh, _⟩
+          · rw [hm]; exact ⟨msg, rfl⟩
+          · cases hh
+        | ok p =>
+          obtain ⟨r'', ms⟩ := p
+          rw [hpe] at hs
+          obtain ⟨_, hs⟩ := hs
+          simp only
+          cases ms with
+          | true =>
+            simp only [if_true] at hs
+            exact absurd hs.2.1 (by decide)
+          | false =>
+            simp only [Bool.false_eq_true, if_false] at hs
+            obtain ⟨ivs, hm⟩ := hs
+            rw [hm]
+            exact ⟨_, rfl, fun v h => by cases h⟩
+      have hp1 : y ≠ 0x70 := fun e => hpP (.inl e)
+      have hp2 : y ≠ 0x50 := fun e => hpP (.inr e)
       by_cases hb : y = 0x62
       · subst hb
         have : classAtom c (0x5C :: 0x62 :: r') = .ok (some 8, r') := by unfold classAtom; rfl
@@ -56,7 +100,7 @@ theorem classAtom_sim (c : Cfg) (hcu : c.u = true) (fl : Flags) (hu : fl.unicode
         rw [this]
         simp only [ESG.isClassEscLetter, Bool.or_eq_true, beq_iff_eq] at hcl
         unfold bracketClassAtom
-        rcases hcl with ((((h | h) | h) | h) | h) | h <;> subst h <;> exact ⟨_, rfl, _, _, rfl⟩
+        rcases hcl with ((((h | h) | h) | h) | h) | h <;> subst h <;> exact ⟨_, rfl, fun v h => by cases h⟩
       by_cases hd : y = 0x2D
       · subst hd
         have : classAtom c (0x5C :: 0x2D :: r') = .ok (some 0x2D, r') := by
@@ -100,35 +144,56 @@ theorem classAtom_sim (c : Cfg) (hcu : c.u = true) (fl : Flags) (hu : fl.unicode
     exact ⟨_, rfl, rfl⟩
 
 /-- What a class atom consumes is neutral inside a class. -/
-theorem classAtom_neutral (F : Feat) (c : Cfg) (hcu : c.u = true) {x : Nat} {r r' : List Nat}
+theorem classAtom_neutral (F : Feat) (hvk : F.vk = false) (c : Cfg) (hcu : c.u = true) {x : Nat} {r r' : List Nat}
     {a : Option Nat} (hx : x ≠ 0x5D)
-    (hp : ∀ y r', x = 0x5C → r = y :: r' → y ≠ 0x70 ∧ y ≠ 0x50)
+    (hp : ∀ y r', x = 0x5C → r = y :: r' → (y = 0x70 ∨ y = 0x50) → c.t = tabs)
     (h : classAtom c (x :: r) = .ok (a, r')) :
-    ∃ t, x :: r = t ++ r' ∧ NeutralM F true t := by
+    ∃ t, x :: r = t ++ r' ∧ NeutralM F 1 t := by
   by_cases hbs : x = 0x5C
   · subst hbs
     rcases r with _ | ⟨y, r0⟩
     · have : classAtom c [0x5C] = .bad := by unfold classAtom; rfl
       rw [this] at h; cases h
-    · obtain ⟨hp1, hp2⟩ := hp y r0 rfl rfl
+    · by_cases hpP : y = 0x70 ∨ y = 0x50
+      · have hct := hp y r0 rfl rfl hpP
+        have e1 : classAtom c (0x5C :: y :: r0) =
+            match propEscape c (y == 0x50) r0 with
+            | .ok (r'', _) => .ok (none, r'')
+            | .bad => .bad
+            | .fuel => .fuel := by
+          unfold classAtom
+          rcases hpP with rfl | rfl <;> simp [hcu, ESG.isClassEscLetter] <;> rfl
+        rw [e1] at h
+        have hs := prop_sim c hct (y == 0x50) r0
+        cases hpe : propEscape c (y == 0x50) r0 with
+        | fuel => rw [hpe] at h; cases h
+        | bad => rw [hpe] at h; cases h
+        | ok p =>
+          obtain ⟨r'', ms⟩ := p
+          rw [hpe] at h hs
+          cases h
+          obtain ⟨⟨q, hq, hqp⟩, _⟩ := hs
+          exact ⟨[0x5C, y] ++ q, by rw [hq]; simp, neutralM_append (neutralM_esc F 1 y) (neutralM_plains F 1 hqp)⟩
+      have hp1 : y ≠ 0x70 := fun e => hpP (.inl e)
+      have hp2 : y ≠ 0x50 := fun e => hpP (.inr e)
       have hpp : (y == 0x70 || y == 0x50) = false := by simp [hp1, hp2]
       unfold classAtom at h
       simp only [hcu, hpp, if_true, Bool.false_eq_true, if_false] at h
       split at h
-      · cases h; exact ⟨[0x5C, y], rfl, neutralM_esc F true y⟩
+      · cases h; exact ⟨[0x5C, y], rfl, neutralM_esc F 1 y⟩
       · split at h
-        · cases h; exact ⟨[0x5C, y], rfl, neutralM_esc F true y⟩
+        · cases h; exact ⟨[0x5C, y], rfl, neutralM_esc F 1 y⟩
         · split at h
-          · cases h; exact ⟨[0x5C, y], rfl, neutralM_esc F true y⟩
+          · cases h; exact ⟨[0x5C, y], rfl, neutralM_esc F 1 y⟩
           · split at h
             · rename_i v r'' hce
               cases h
-              obtain ⟨t, ht, hnt⟩ := charEscapeU_neutral F true hce
-              exact ⟨[0x5C, y] ++ t, by rw [ht]; simp, neutralM_append (neutralM_esc F true y) hnt⟩
+              obtain ⟨t, ht, hnt⟩ := charEscapeU_neutral F 1 hce
+              exact ⟨[0x5C, y] ++ t, by rw [ht]; simp, neutralM_append (neutralM_esc F 1 y) hnt⟩
             · cases h
   · rw [classAtom_plain c r hbs] at h
     cases h
-    exact ⟨[x], rfl, neutralM_in F hbs hx⟩
+    exact ⟨[x], rfl, neutralM_in F 0 hbs hx (.inl hvk)⟩
 
 /-! ## Unfolding equations of the two class loops -/
 
@@ -187,14 +252,20 @@ theorem bl_dash_cp {x : Nat} {r0 r2 r3 : List Nat} {c1 c2 : Nat} (hx : x ≠ 0x5
 theorem bl_dash_cls {x : Nat} {r0 r2 r3 : List Nat} {a' b' : ClassAtom} (hx : x ≠ 0x5D) (hu : fl.unicode = true)
     (h : bracketClassAtom fl hn (x :: r0) = .ok (some a', 0x2D :: r2))
     (h2 : bracketClassAtom fl hn r2 = .ok (some b', r3))
-    (hcls : (∃ ct pos, a' = .charClass ct pos) ∨ (∃ ct pos, b' = .charClass ct pos)) :
+    (hcls : (∀ v, a' ≠ .codePoint v) ∨ (∀ v, b' ≠ .codePoint v)) :
     bracketLoop fl hn inv (f + 1) (x :: r0) cps = synErr "Invalid character range" := by
   rw [bracketLoop]
   have : (x == 0x5D) = false := by simp [hx]
   simp only [this, Bool.false_eq_true, if_false, h, h2]
-  rcases hcls with ⟨ct, pos, rfl⟩ | ⟨ct, pos, rfl⟩
-  · simp [hu]
-  · cases a' <;> simp [hu]
+  rcases hcls with hc | hc
+  · cases a' with
+    | codePoint v => exact absurd rfl (hc v)
+    | charClass ct pos => simp [hu]
+    | range iv ng => simp [hu]
+  · cases b' with
+    | codePoint v => exact absurd rfl (hc v)
+    | charClass ct pos => cases a' <;> simp [hu]
+    | range iv ng => cases a' <;> simp [hu]
 end
 
 theorem bracketClassAtom_none (fl : Flags) (hn : Bool) (r : List Nat) (h : r = [] ∨ ∃ r', r = 0x5D :: r') :
@@ -274,14 +345,45 @@ theorem classLoop_dash_close (c : Cfg) (n : Nat) (r2 : List Nat) :
   rw [clRest_nodash c (n + 1) _ (by intro r1 h; cases h)]
   exact cl_close c n r2
 
+/-- Range with a class on either side, Annex B mode: both ends and the `-` are added as they are. -/
+theorem bl_dash_clsL (fl : Flags) (hn inv : Bool) (f : Nat) (cps : CPS.IvList)
+    {x : Nat} {r0 r2 r3 : List Nat} {a' b' : ClassAtom} (hx : x ≠ 0x5D) (hu : fl.unicode = false)
+    (h : bracketClassAtom fl hn (x :: r0) = .ok (some a', 0x2D :: r2))
+    (h2 : bracketClassAtom fl hn r2 = .ok (some b', r3))
+    (hcls : (∀ v, a' ≠ .codePoint v) ∨ (∀ v, b' ≠ .codePoint v)) :
+    ∃ cps', bracketLoop fl hn inv (f + 1) (x :: r0) cps = bracketLoop fl hn inv f r3 cps' := by
+  rw [bracketLoop]
+  have : (x == 0x5D) = false := by simp [hx]
+  simp only [this, Bool.false_eq_true, if_false, h, h2]
+  rcases hcls with hc | hc
+  · cases a' with
+    | codePoint v => exact absurd rfl (hc v)
+    | charClass ct pos => simp only [hu, Bool.false_eq_true, if_false]; exact ⟨_, rfl⟩
+    | range iv ng => simp only [hu, Bool.false_eq_true, if_false]; exact ⟨_, rfl⟩
+  · cases b' with
+    | codePoint v => exact absurd rfl (hc v)
+    | charClass ct pos => cases a' <;> (simp only [hu, Bool.false_eq_true, if_false]; exact ⟨_, rfl⟩)
+    | range iv ng => cases a' <;> (simp only [hu, Bool.false_eq_true, if_false]; exact ⟨_, rfl⟩)
+
+/-- The simulation of ONE class atom (what the mode-specific lemmas provide): on inputs of the
+fragment satisfying `P`, the two readers agree (`AtomRel`) and what they consume is neutral. -/
+def AtomSimOn (F : Feat) (c : Cfg) (fl : Flags) (hn : Bool) (P : List Nat → Prop) : Prop :=
+  ∀ x r, x ≠ 0x5D → P (x :: r) → fragGo F 1 (x :: r) = true →
+    match classAtom c (x :: r) with
+    | .ok (a, r') => (∃ a', bracketClassAtom fl hn (x :: r) = .ok (some a', r') ∧ AtomRel a a') ∧
+        ∃ t, x :: r = t ++ r' ∧ NeutralM F 1 t
+    | .bad => IsSyn (bracketClassAtom fl hn (x :: r))
+    | .fuel => False
+
 /-- The contents of a class up to and including the closing `]`: the crate's `bracketLoop` against
-the grammar's `classLoop` (UnicodeMode, no `\\p` / `\\P`). -/
-theorem classLoop_sim (F : Feat) (c : Cfg) (hcu : c.u = true) (fl : Flags) (hu : fl.unicode = true)
-    (hn inv : Bool) : ∀ (n : Nat) (s : List Nat), s.length + 1 ≤ n → ∀ (f : Nat) (cps : CPS.IvList),
-    s.length + 1 ≤ f → AllChar s → fragGo F true s = true →
+the grammar's `classLoop`, in either mode `u`, given the simulation of single class atoms. -/
+theorem classLoop_simG (F : Feat) (c : Cfg) (u : Bool) (hcu : c.u = u) (fl : Flags) (hu : fl.unicode = u)
+    (hn inv : Bool) (P : List Nat → Prop) (hP : ∀ p l, P (p ++ l) → P l) (hA : AtomSimOn F c fl hn P) :
+    ∀ (n : Nat) (s : List Nat), s.length + 1 ≤ n → ∀ (f : Nat) (cps : CPS.IvList),
+    s.length + 1 ≤ f → P s → fragGo F 1 s = true →
     match classLoop c n s with
     | .ok r' => (∃ nd, bracketLoop fl hn inv f s cps = .ok (nd, r')) ∧
-        ∃ b, s = b ++ 0x5D :: r' ∧ NeutralM F true b
+        ∃ b, s = b ++ 0x5D :: r' ∧ NeutralM F 1 b
     | .bad => IsSyn (bracketLoop fl hn inv f s cps)
     | .fuel => False := by
   intro n
@@ -295,31 +397,24 @@ theorem classLoop_sim (F : Feat) (c : Cfg) (hcu : c.u = true) (fl : Flags) (hu :
     by_cases hx : x = 0x5D
     · subst hx
       rw [cl_close]
-      exact ⟨bl_close fl hn inv f' cps r0, [], rfl, neutralM_nil F true⟩
+      exact ⟨bl_close fl hn inv f' cps r0, [], rfl, neutralM_nil F 1⟩
     simp only [List.length_cons] at hnn hf
-    -- the leading escape is not `\p`
-    have hp : ∀ y r', x = 0x5C → r0 = y :: r' → y ≠ 0x70 ∧ y ≠ 0x50 := by
-      rintro y r' rfl rfl
-      rw [fragGo_esc_in] at hfr
-      simp only [Bool.and_eq_true, Bool.not_eq_true', Bool.or_eq_false_iff, beq_eq_false_iff_ne] at hfr
-      exact hfr.1
-    have hA := classAtom_sim c hcu fl hu hn hx hch hp
+    have hA1 := hA x r0 hx hch hfr
     obtain ⟨s1, s2, s3⟩ := cl_step c n (x := x) (r0 := r0) hx
     cases hca : classAtom c (x :: r0) with
-    | fuel => rw [hca] at hA; exact hA.elim
+    | fuel => rw [hca] at hA1; exact hA1.elim
     | bad =>
-      rw [hca] at hA
-      obtain ⟨msg, hm⟩ := hA
+      rw [hca] at hA1
+      obtain ⟨msg, hm⟩ := hA1
       rw [s1 hca, bl_err fl hn inv f' cps hx hm]; exact ⟨msg, rfl⟩
     | ok p =>
       obtain ⟨a, r⟩ := p
-      rw [hca] at hA
-      obtain ⟨a', ha', hrel⟩ := hA
-      obtain ⟨t, ht, hnt⟩ := classAtom_neutral F c hcu hx hp hca
+      rw [hca] at hA1
+      obtain ⟨⟨a', ha', hrel⟩, t, ht, hnt⟩ := hA1
       have hlen := classAtom_len c _ _ _ hca
       simp only [List.length_cons] at hlen
-      have hchr : AllChar r := by rw [ht] at hch; exact hch.append_right
-      have hfrr : fragGo F true r = true := by rw [ht] at hfr; exact hnt.frag r hfr
+      have hchr : P r := by rw [ht] at hch; exact hP _ _ hch
+      have hfrr : fragGo F 1 r = true := by rw [ht] at hfr; exact hnt.frag r hfr
       rw [s3 a r hca]
       by_cases hdash : ∃ r1, r = 0x2D :: r1
       · obtain ⟨r1, rfl⟩ := hdash
@@ -342,18 +437,13 @@ theorem classLoop_sim (F : Feat) (c : Cfg) (hcu : c.u = true) (fl : Flags) (hu :
             rw [hbl]
             obtain ⟨f'', rfl⟩ : ∃ f'', f' = f'' + 1 := ⟨f' - 1, by omega⟩
             refine ⟨bl_close fl hn inv f'' cps' r2, t ++ [0x2D], by rw [ht]; simp, ?_⟩
-            exact neutralM_append hnt (neutralM_in F (by decide) (by decide))
+            exact neutralM_append hnt (neutralM_in F 0 (by decide) (by decide) (.inr (by decide)))
           · -- a range
             obtain ⟨g1, g2, g3⟩ := clRest_range c n a (y := y) r2 hy
-            have hch2 : AllChar (y :: r2) := hchr.tail
-            have hfr2 : fragGo F true (y :: r2) = true := by
-              rwa [fragGo_in F _ (by decide) (by decide)] at hfrr
-            have hp2 : ∀ z r', y = 0x5C → r2 = z :: r' → z ≠ 0x70 ∧ z ≠ 0x50 := by
-              rintro z r' rfl rfl
-              rw [fragGo_esc_in] at hfr2
-              simp only [Bool.and_eq_true, Bool.not_eq_true', Bool.or_eq_false_iff, beq_eq_false_iff_ne] at hfr2
-              exact hfr2.1
-            have hB := classAtom_sim c hcu fl hu hn hy hch2 hp2
+            have hch2 : P (y :: r2) := hP [0x2D] _ hchr
+            have hfr2 : fragGo F 1 (y :: r2) = true := by
+              rwa [fragGo_in F 0 _ (by decide) (by decide) (.inr (by decide))] at hfrr
+            have hB := hA y r2 hy hch2 hfr2
             cases hcb : classAtom c (y :: r2) with
             | fuel => rw [hcb] at hB; exact hB.elim
             | bad =>
@@ -363,28 +453,57 @@ theorem classLoop_sim (F : Feat) (c : Cfg) (hcu : c.u = true) (fl : Flags) (hu :
             | ok p2 =>
               obtain ⟨b, r3⟩ := p2
               rw [hcb] at hB
-              obtain ⟨b', hb', hrelb⟩ := hB
-              obtain ⟨t2, ht2, hnt2⟩ := classAtom_neutral F c hcu hy hp2 hcb
+              obtain ⟨⟨b', hb', hrelb⟩, t2, ht2, hnt2⟩ := hB
               have hlen2 := classAtom_len c _ _ _ hcb
               simp only [List.length_cons] at hlen2
               rw [g3 b r3 hcb]
+              have hch3 : P r3 := by rw [ht2] at hch2; exact hP _ _ hch2
+              have hfr3 : fragGo F 1 r3 = true := by rw [ht2] at hfr2; exact hnt2.frag r3 hfr2
+              -- the loop goes on behind the range, whatever was added to the set
+              have cont : ∀ cps', match classLoop c n r3 with
+                  | .ok r' => (∃ nd, bracketLoop fl hn inv f' r3 cps' = .ok (nd, r')) ∧
+                      ∃ b, x :: r0 = b ++ 0x5D :: r' ∧ NeutralM F 1 b
+                  | .bad => IsSyn (bracketLoop fl hn inv f' r3 cps')
+                  | .fuel => False := by
+                intro cps'
+                have := ih r3 (by omega) f' cps' (by omega) hch3 hfr3
+                cases hcl : classLoop c n r3 with
+                | fuel => rw [hcl] at this; exact this.elim
+                | bad => rw [hcl] at this; exact this
+                | ok r' =>
+                  rw [hcl] at this
+                  obtain ⟨h1, b3, hb3, hnb3⟩ := this
+                  refine ⟨h1, t ++ ([0x2D] ++ (t2 ++ b3)), ?_, ?_⟩
+                  · rw [ht, ht2, hb3]; simp
+                  · exact neutralM_append hnt (neutralM_append (neutralM_in F 0 (by decide) (by decide) (.inr (by decide)))
+                      (neutralM_append hnt2 hnb3))
+              -- a class (not a code point) at either end: an error under `u`, taken literally otherwise
+              have hcls : ((∀ v, a' ≠ .codePoint v) ∨ (∀ v, b' ≠ .codePoint v)) → rangeOk c a b = !u →
+                  match (if rangeOk c a b = true then classLoop c n r3 else R.bad) with
+                  | .ok r' => (∃ nd, bracketLoop fl hn inv (f' + 1) (x :: r0) cps = .ok (nd, r')) ∧
+                      ∃ b, x :: r0 = b ++ 0x5D :: r' ∧ NeutralM F 1 b
+                  | .bad => IsSyn (bracketLoop fl hn inv (f' + 1) (x :: r0) cps)
+                  | .fuel => False := by
+                intro hc hro
+                cases u with
+                | true =>
+                  rw [hro]
+                  simp only [Bool.not_true, Bool.false_eq_true, if_false]
+                  rw [bl_dash_cls fl hn inv f' cps hx hu ha' hb' hc]
+                  exact isSyn_synErr _
+                | false =>
+                  rw [hro]
+                  simp only [Bool.not_false, if_true]
+                  obtain ⟨cps', hbl⟩ := bl_dash_clsL fl hn inv f' cps hx hu ha' hb' hc
+                  rw [hbl]
+                  exact cont cps'
               cases a with
               | none =>
-                obtain ⟨ct, pos, rfl⟩ := hrel
-                have : rangeOk c none b = false := by unfold rangeOk; simp [hcu]
-                rw [this]
-                simp only [Bool.false_eq_true, if_false]
-                rw [bl_dash_cls fl hn inv f' cps hx hu ha' hb' (.inl ⟨ct, pos, rfl⟩)]
-                exact isSyn_synErr _
+                exact hcls (.inl hrel) (by unfold rangeOk; simp [hcu])
               | some va =>
                 cases b with
                 | none =>
-                  obtain ⟨ct, pos, rfl⟩ := hrelb
-                  have : rangeOk c (some va) none = false := by unfold rangeOk; simp [hcu]
-                  rw [this]
-                  simp only [Bool.false_eq_true, if_false]
-                  rw [bl_dash_cls fl hn inv f' cps hx hu ha' hb' (.inr ⟨ct, pos, rfl⟩)]
-                  exact isSyn_synErr _
+                  exact hcls (.inr hrelb) (by unfold rangeOk; simp [hcu])
                 | some vb =>
                   simp only [AtomRel] at hrel hrelb
                   subst hrel; subst hrelb
@@ -394,19 +513,7 @@ theorem classLoop_sim (F : Feat) (c : Cfg) (hcu : c.u = true) (fl : Flags) (hu :
                     rw [hro]
                     rw [if_neg (show ¬ va > vb by omega)]
                     simp only [if_true]
-                    have hch3 : AllChar r3 := by rw [ht2] at hch2; exact hch2.append_right
-                    have hfr3 : fragGo F true r3 = true := by rw [ht2] at hfr2; exact hnt2.frag r3 hfr2
-                    have := ih r3 (by omega) f' (CPS.add cps { first := va, last := vb }) (by omega) hch3 hfr3
-                    cases hcl : classLoop c n r3 with
-                    | fuel => rw [hcl] at this; exact this.elim
-                    | bad => rw [hcl] at this; exact this
-                    | ok r' =>
-                      rw [hcl] at this
-                      obtain ⟨h1, b3, hb3, hnb3⟩ := this
-                      refine ⟨h1, t ++ ([0x2D] ++ (t2 ++ b3)), ?_, ?_⟩
-                      · rw [ht, ht2, hb3]; simp
-                      · exact neutralM_append hnt (neutralM_append (neutralM_in F (by decide) (by decide))
-                          (neutralM_append hnt2 hnb3))
+                    exact cont _
                   · have hro : rangeOk c (some va) (some vb) = false := by simp [rangeOk, hle]
                     rw [hro]
                     rw [if_pos (show va > vb by omega)]
@@ -423,6 +530,41 @@ theorem classLoop_sim (F : Feat) (c : Cfg) (hcu : c.u = true) (fl : Flags) (hu :
           rw [hcl] at this
           obtain ⟨h1, b3, hb3, hnb3⟩ := this
           exact ⟨h1, t ++ b3, by rw [ht, hb3]; simp, neutralM_append hnt hnb3⟩
+
+/-- The class-atom simulation of UnicodeMode (without `v`). -/
+theorem atomSim_u (F : Feat) (c : Cfg) (hcu : c.u = true) (fl : Flags) (hu : fl.unicode = true)
+    (hpr : F.pr = true → c.t = tabs) (hlk : F.lk = false) (hvk : F.vk = false) (hcv : c.v = false)
+    (hnv : fl.unicodeSets = false) (hn : Bool) :
+    AtomSimOn F c fl hn AllChar := by
+  intro x r0 hx hch hfr
+  have hp : ∀ y r', x = 0x5C → r0 = y :: r' → (y = 0x70 ∨ y = 0x50) → c.t = tabs := by
+    rintro y r' rfl rfl hy
+    rw [fragGo_esc_in, Bool.and_eq_true] at hfr
+    refine hpr ?_
+    have := hfr.1
+    simp only [inClsOk, hlk] at this
+    rcases hy with rfl | rfl <;> simpa using this
+  have hA := classAtom_sim c hcu fl hu hn hx hch (fun y r' h1 h2 h3 => ⟨hp y r' h1 h2 h3, hcv, hnv⟩)
+  cases hca : classAtom c (x :: r0) with
+  | fuel => rw [hca] at hA; exact hA.elim
+  | bad => rw [hca] at hA; exact hA
+  | ok p =>
+    obtain ⟨a, r⟩ := p
+    rw [hca] at hA
+    exact ⟨hA, classAtom_neutral F hvk c hcu hx hp hca⟩
+
+/-- The contents of a class, UnicodeMode without `v`. -/
+theorem classLoop_sim (F : Feat) (c : Cfg) (hcu : c.u = true) (fl : Flags) (hu : fl.unicode = true)
+    (hpr : F.pr = true → c.t = tabs) (hlk : F.lk = false) (hvk : F.vk = false) (hcv : c.v = false)
+    (hnv : fl.unicodeSets = false) (hn inv : Bool) : ∀ (n : Nat) (s : List Nat), s.length + 1 ≤ n → ∀ (f : Nat) (cps : CPS.IvList),
+    s.length + 1 ≤ f → AllChar s → fragGo F 1 s = true →
+    match classLoop c n s with
+    | .ok r' => (∃ nd, bracketLoop fl hn inv f s cps = .ok (nd, r')) ∧
+        ∃ b, s = b ++ 0x5D :: r' ∧ NeutralM F 1 b
+    | .bad => IsSyn (bracketLoop fl hn inv f s cps)
+    | .fuel => False :=
+  classLoop_simG F c true hcu fl hu hn inv AllChar (fun _ _ h => h.append_right)
+    (atomSim_u F c hcu fl hu hpr hlk hvk hcv hnv hn)
 
 /-! ## The class as an atom -/
 
@@ -465,11 +607,14 @@ theorem cAtom_class {cd : PState → Res (Node × PState)} {st : PState} {acc : 
   simp [hinv]
   rfl
 
-/-- A character class, UnicodeMode without `v`: the crate's `[` arm against the grammar's. -/
-theorem class_sim (F : Feat) (c : Cfg) (hcu : c.u = true) (hcv : c.v = false)
-    {cd : PState → Res (Node × PState)} (st : PState) (hu : st.flags.unicode = true)
-    (hv : st.flags.unicodeSets = false) (acc : List Node) {r0 : List Nat} (hin : st.input = 0x5B :: r0)
-    (hch : AllChar r0) (hfr : fragGo F true r0 = true) (n : Nat) (hn : r0.length + 1 ≤ n) (est : ESG.St) :
+/-- A character class (no `v`), either mode: the crate's `[` arm against the grammar's, given the
+simulation of single class atoms. -/
+theorem class_simG (F : Feat) (c : Cfg) (u : Bool) (hcu : c.u = u) (hcv : c.v = false)
+    {cd : PState → Res (Node × PState)} (st : PState) (hu : st.flags.unicode = u)
+    (hv : st.flags.unicodeSets = false) (P : List Nat → Prop) (hP : ∀ p l, P (p ++ l) → P l)
+    (hA : AtomSimOn F c st.flags (!st.named.isEmpty) P)
+    (acc : List Node) {r0 : List Nat} (hin : st.input = 0x5B :: r0)
+    (hch : P r0) (hfr : fragGo F 1 r0 = true) (n : Nat) (hn : r0.length + 1 ≤ n) (est : ESG.St) :
     match atom c (n + 1) (0x5B :: r0) est with
     | .ok (r', est') => est' = est ∧
         (∃ nd, consumeAtomA cd st acc 0x5B = .ok ⟨acc ++ [nd], { st with input := r' }, acc.length, true⟩) ∧
@@ -479,22 +624,22 @@ theorem class_sim (F : Feat) (c : Cfg) (hcu : c.u = true) (hcv : c.v = false)
   obtain ⟨inv, hca⟩ := cAtom_class (cd := cd) (acc := acc) hv hin
   obtain ⟨a1, a2⟩ := atom_class c hcv n r0 est
   -- the contents after the optional `^`
-  have hs : ∃ q, r0 = q ++ stripCaret r0 ∧ NeutralM F true q := by
+  have hs : ∃ q, r0 = q ++ stripCaret r0 ∧ NeutralM F 1 q := by
     unfold stripCaret
     rcases r0 with _ | ⟨y, r1⟩
-    · exact ⟨[], rfl, neutralM_nil F true⟩
+    · exact ⟨[], rfl, neutralM_nil F 1⟩
     · by_cases hy : y = 0x5E
-      · subst hy; exact ⟨[0x5E], rfl, neutralM_in F (by decide) (by decide)⟩
-      · refine ⟨[], ?_, neutralM_nil F true⟩
+      · subst hy; exact ⟨[0x5E], rfl, neutralM_in F 0 (by decide) (by decide) (.inr (by decide))⟩
+      · refine ⟨[], ?_, neutralM_nil F 1⟩
         simp [hy]
   obtain ⟨q, hq, hnq⟩ := hs
   have hlen : (stripCaret r0).length ≤ r0.length := by
     have := congrArg List.length hq
     simp at this; omega
-  have hch' : AllChar (stripCaret r0) := by rw [hq] at hch; exact hch.append_right
-  have hfr' : fragGo F true (stripCaret r0) = true := by
+  have hch' : P (stripCaret r0) := by rw [hq] at hch; exact hP _ _ hch
+  have hfr' : fragGo F 1 (stripCaret r0) = true := by
     have := hfr; rw [hq] at this; exact hnq.frag _ this
-  have hsim := classLoop_sim F c hcu st.flags hu (!st.named.isEmpty) inv n (stripCaret r0) (by omega)
+  have hsim := classLoop_simG F c u hcu st.flags hu (!st.named.isEmpty) inv P hP hA n (stripCaret r0) (by omega)
     ((stripCaret r0).length + 2) [] (by omega) hch' hfr'
   cases hcl : classLoop c n (stripCaret r0) with
   | fuel => rw [hcl] at hsim; exact hsim.elim
@@ -509,5 +654,21 @@ theorem class_sim (F : Feat) (c : Cfg) (hcu : c.u = true) (hcv : c.v = false)
     rw [a1 r' hcl, hca, hnd]
     refine ⟨rfl, ⟨nd, rfl⟩, 0x5B :: ((q ++ b) ++ [0x5D]), ?_, neutral_class (neutralM_append hnq hnb)⟩
     rw [hq, hb]; simp
+
+/-- A character class, UnicodeMode without `v`. -/
+theorem class_sim (F : Feat) (c : Cfg) (hcu : c.u = true) (hcv : c.v = false)
+    (hpr : F.pr = true → c.t = tabs) (hlk : F.lk = false) (hvk : F.vk = false)
+    {cd : PState → Res (Node × PState)} (st : PState)
+    (hu : st.flags.unicode = true)
+    (hv : st.flags.unicodeSets = false) (acc : List Node) {r0 : List Nat} (hin : st.input = 0x5B :: r0)
+    (hch : AllChar r0) (hfr : fragGo F 1 r0 = true) (n : Nat) (hn : r0.length + 1 ≤ n) (est : ESG.St) :
+    match atom c (n + 1) (0x5B :: r0) est with
+    | .ok (r', est') => est' = est ∧
+        (∃ nd, consumeAtomA cd st acc 0x5B = .ok ⟨acc ++ [nd], { st with input := r' }, acc.length, true⟩) ∧
+        ∃ p, 0x5B :: r0 = p ++ r' ∧ Neutral F p
+    | .bad => IsSyn (consumeAtomA cd st acc 0x5B)
+    | .fuel => False :=
+  class_simG F c true hcu hcv st hu hv AllChar (fun _ _ h => h.append_right)
+    (atomSim_u F c hcu st.flags hu hpr hlk hvk hcv hv _) acc hin hch hfr n hn est
 
 end Regress.C08Frag
